@@ -544,6 +544,18 @@ namespace
             sys.clo[0] = -rng.uni(0.3, 2), sys.chi[0] = rng.uni(0.3, 2);
             sys.clo[1] = -rng.uni(0.3, 2), sys.chi[1] = rng.uni(0.3, 2);
         }
+        // A small class of "creeping" systems: control magnitudes so small that successive propagation steps are
+        // closer together than std::numeric_limits<float>::epsilon() in the state-space metric.  The goal is out of
+        // reach, but planners still report approximate solutions, and those must replay like any other.
+        const bool creeping = rng.u01() < atof(a.get("slowfrac", "0.03").c_str());
+        const double cscale = creeping ? rng.logUni(2e-7, 5e-6) : 1.0;
+        H(cscale);
+        if (creeping)
+        {
+            for (int d = 0; d < 2; ++d)
+                sys.clo[d] *= cscale, sys.chi[d] *= cscale;
+            sink.count("c02_cases_creeping_system");
+        }
         for (int d = 0; d < 2; ++d)
             H(sys.clo[d]), H(sys.chi[d]);
         sys.cspace = std::make_shared<oc::RealVectorControlSpace>(sys.space, 2);
@@ -799,6 +811,8 @@ namespace
         unsigned long budget = (unsigned long)(a.thorough() ? rng.logUni(2000, 60000) : rng.logUni(1500, 25000));
         if (pl == P_SST && !sstStopAtFirst)
             budget = budget / 2 + 500;  // always runs the whole budget
+        if (creeping)
+            budget = 300 + budget % 1700;  // nothing can be reached; a short run gives the approximate paths wanted
         if (regionalNN)
             budget = std::min(budget, 6000ul);  // linear scans over the region's motions: quadratic in the tree size
         // second, equally deterministic bound on the tree size (calls of the harness's propagator by the library)
@@ -822,6 +836,8 @@ namespace
             j.str("planner", P).str("system", S).str("status", st.asString()).u("lib_seed", libSeed);
             j.num("step", h).u("min_steps", minD).u("max_steps", maxD).u("budget", budget).u("evals", evals);
             j.i("goal_kind", goalKind).num("threshold", thr).u("n_obstacles", w.obs.size()).i("solve_calls", phases);
+            if (creeping)
+                j.num("control_scale", cscale);
             return j;
         };
         bool anySolutionStatus = false, abandoned = false;
@@ -947,17 +963,24 @@ namespace
 
             // every control: duration, bounds, replay
             long stepsHere = 0;
-            bool durViol = false, oobViol = false, invViol = false, misViol = false;
+            bool durViol[2] = {false, false}, misViol[2] = {false, false}, oobViol = false, invViol = false;
             for (size_t i = 0; i < controls.size(); ++i)
             {
+                // input class of this control (part of the key): does one propagation step from the recorded state move
+                // the state by less than float epsilon in the state-space metric?
+                sys.step(states[i], controls[i], h, nxt);
+                const bool subEps = si->distance(states[i], nxt) < std::numeric_limits<float>::epsilon();
+                const std::string cls = subEps ? ":steps-below-float-eps" : "";
+                if (subEps)
+                    sink.count("c02_controls_with_steps_below_float_eps");
                 const double q = durs[i] / h;
                 const double rq = std::floor(q + 0.5);
                 if (!(std::fabs(q - rq) <= 1e-9) || !(rq >= 1) || !(rq < 1e9))
                 {
-                    if (!durViol)
-                        sink.viol("C02:duration-not-multiple:" + P,
+                    if (!durViol[subEps])
+                        sink.viol("C02:duration-not-multiple:" + P + cls,
                                   base().u("control_index", i).num("duration", durs[i]).num("ratio", q));
-                    durViol = true;
+                    durViol[subEps] = true;
                     continue;  // nothing sensible to replay for this control
                 }
                 const long n = (long)rq;
@@ -1016,7 +1039,7 @@ namespace
                 sink.maxstat("c02_worst_replay_error", worst);
                 if (!(worst <= tol))
                 {
-                    if (!misViol)
+                    if (!misViol[subEps])
                     {
                         // diagnosis aid: which step count would have reproduced the recorded state best
                         long bestN = -1;
@@ -1045,7 +1068,7 @@ namespace
                         sys.comps(nxt, w3);
                         for (unsigned d = 0; d < sys.ncomp(); ++d)
                             eLong = std::max(eLong, std::fabs(w3[d] - vb[d]));
-                        sink.viol("C02:replay-mismatch:" + P,
+                        sink.viol("C02:replay-mismatch:" + P + cls,
                                   base().u("control_index", i).u("controls", controls.size()).i("steps", n)
                                       .num("error", worst).num("tolerance", tol)
                                       .arr("from", compVec(sys, states[i])).arr("control", {u[0], u[1]})
@@ -1054,7 +1077,7 @@ namespace
                                       .i("best_matching_step_count", bestN).num("error_at_best", bestE)
                                       .num("error_of_single_long_step", eLong));
                     }
-                    misViol = true;
+                    misViol[subEps] = true;
                 }
                 else
                     sink.count(bitEq ? "c02_replay_bitwise_equal" : "c02_replay_tolerance_equal_only");
@@ -1132,7 +1155,7 @@ int main(int argc, char **argv)
     Sink sink(a);
     long total;
     if (a.prop == "C02")
-        total = a.thorough() ? 16000 : 6000;
+        total = a.thorough() ? 22000 : 6000;
     else
     {
         fprintf(stderr, "h_control does not serve %s\n", a.prop.c_str());
